@@ -23,12 +23,14 @@
    of each bucket under its lock in any order, publication before release — for any number of threads
    and every schedule: C15_concurrent_table_is_the_map (nothing lost across resizes),
    C15_concurrent_update_atomic / _applied_exactly_once (the atomicity of Compute that C02 assumes),
-   C15_concurrent_get_regular (a lock-free Get returns a binding current during the call).  There a
+   C15_concurrent_get_regular (a lock-free Get returns a binding current during the call),
+   C15_concurrent_iteration_sound / _complete / _no_removed_entry (Range during resizes),
+   C15_concurrent_no_deadlock.  There a
    table version is a key->binding store (the layout is the sequential theorems' subject) and a bucket's
    update, a bucket's copy and a Get's read of its key are one step each; the tbl engine replays the
-   real table's hook-to-hook schedules on this model.  Iteration during a resize and Clear are checked
-   by implementation oracles only. *)
-From Otter Require Import Base HashMap HashMapFacts HashMapBytes HashMapRefine HashMapConc HashMapConcProofs.
+   real table's hook-to-hook schedules on this model.  Clear under concurrency is checked by
+   implementation oracles only. *)
+From Otter Require Import Base HashMap HashMapFacts HashMapBytes HashMapRefine HashMapConc HashMapConcProofs HashMapConcLive.
 From Coq Require Import Permutation.
 
 Theorem C15_seq_refines_map : forall hashf n ops,
@@ -123,6 +125,40 @@ Theorem C15_concurrent_get_quiescent : forall hidx n0 ops sched j t, (1 <= n0)%n
 Proof. exact conc_read_quiescent. Qed.
 Print Assumptions C15_concurrent_get_quiescent.
 
+(* iteration (Range): for every key, what a finished iteration yielded for it (a binding or nothing) is
+   what the abstract map held for it at some moment between the iteration's table load and its end; so a
+   key present during the whole iteration is yielded, a key removed before it began (and not re-inserted)
+   is not, and a yielded binding is one the key had meanwhile.  (At most once per key: a key lives in one
+   bucket of a table version and every bucket is read once — the sequential theorems' layout.) *)
+Theorem C15_concurrent_iteration_sound : forall hidx n0 ops sched j t, (1 <= n0)%nat ->
+  let s := hrun hidx (hinit n0 ops) sched in
+  nth_error (hths s) j = Some t -> hpc_ t = IDone ->
+  forall k, (hst t - 1 <= hwitf t k < length (hist s))%nat /\ nth (hwitf t k) (hist s) dflt k = hyield t k.
+Proof. exact conc_iter_sound. Qed.
+Print Assumptions C15_concurrent_iteration_sound.
+
+Theorem C15_concurrent_iteration_complete : forall hidx n0 ops sched j t k, (1 <= n0)%nat ->
+  let s := hrun hidx (hinit n0 ops) sched in
+  nth_error (hths s) j = Some t -> hpc_ t = IDone ->
+  (forall w, (hst t - 1 <= w < length (hist s))%nat -> nth w (hist s) dflt k <> None) -> hyield t k <> None.
+Proof. exact conc_iter_complete. Qed.
+Print Assumptions C15_concurrent_iteration_complete.
+
+Theorem C15_concurrent_iteration_no_removed_entry : forall hidx n0 ops sched j t k, (1 <= n0)%nat ->
+  let s := hrun hidx (hinit n0 ops) sched in
+  nth_error (hths s) j = Some t -> hpc_ t = IDone ->
+  (forall w, (hst t - 1 <= w < length (hist s))%nat -> nth w (hist s) dflt k = None) -> hyield t k = None.
+Proof. exact conc_iter_no_ghost. Qed.
+Print Assumptions C15_concurrent_iteration_no_removed_entry.
+
+(* no deadlock: in every reachable state, if no step of any thread with any input changes the state,
+   every call has returned *)
+Theorem C15_concurrent_no_deadlock : forall hidx n0 ops sched, (1 <= n0)%nat ->
+  let s := hrun hidx (hinit n0 ops) sched in
+  stuck hidx s -> forall i t, nth_error (hths s) i = Some t -> finished t.
+Proof. exact conc_no_deadlock. Qed.
+Print Assumptions C15_concurrent_no_deadlock.
+
 (* bucket locks and the resizing flag are mutual exclusions *)
 Theorem C15_concurrent_bucket_mutex : forall hidx n0 ops sched g b, (1 <= n0)%nat ->
   (hcnt (holder g b) (hths (hrun hidx (hinit n0 ops) sched)) <= 1)%nat.
@@ -139,8 +175,8 @@ Print Assumptions C15_concurrent_resize_mutex.
    once, the reader's value is the one written during its call *)
 Example C15_concurrent_instance :
   let hx := fun (g : nat) (k : Z) => (Z.to_nat k + g)%nat in
-  let ops := [(1, Some (fun _ : option Z => Some 10)); (2, Some (fun _ => Some 20)); (1, None);
-              (1, Some (fun v => match v with Some x => Some (x + 1) | None => None end)); (2, Some (fun _ => None))] in
+  let ops := [HCompute 1 (fun _ => Some 10); HCompute 2 (fun _ => Some 20); HGet 1;
+              HCompute 1 (fun v => match v with Some x => Some (x + 1) | None => None end); HCompute 2 (fun _ => None)] in
   let rep := fun (i n : nat) => repeat (i, 0%nat) n in
   let sched := rep 0%nat 7%nat ++ [(2, 0)]%nat ++ rep 1%nat 4%nat ++ [(1, 1)]%nat ++ rep 3%nat 4%nat ++ [(1, 0); (1, 0)]%nat ++
                rep 4%nat 3%nat ++ rep 3%nat 2%nat ++ [(1, 0); (1, 0); (1, 0)]%nat ++ [(2, 0)]%nat ++ rep 1%nat 8%nat ++
